@@ -58,7 +58,7 @@ def main():
     tree = tempfile.mkdtemp(prefix="vfseed-")
     os.rmdir(tree)
     res = {"seed": seed, "property": meta["property"]}
-    sh(["git", "-C", "/repo", "worktree", "add", "--detach", tree, "HEAD"])
+    sh(["git", "-C", "/repo", "worktree", "add", "--detach", tree, meta.get("base_commit", "HEAD")])
     try:
         demo = os.path.join(seed, "demo.py")
         envd = dict(os.environ, PYTHONPATH=tree, PYTHONDONTWRITEBYTECODE="1")
